@@ -269,7 +269,8 @@ func (r *Run) Finish() int {
 		Key     string `json:"key"`
 		Desc    string `json:"desc"`
 		Replay  string `json:"replay"`
-		Repro   int    `json:"reproduced_of_5"`
+		Repro   int    `json:"reproduced"`
+		Tries   int    `json:"re_executions"`
 		Flaky   bool   `json:"flaky,omitempty"`
 		Known   bool   `json:"known_finding,omitempty"`
 		Anomaly bool   `json:"anomaly,omitempty"`
@@ -289,16 +290,17 @@ func (r *Run) Finish() int {
 		// stay silent on a re-execution (its per-thread event history is bounded, so the stack of the
 		// earlier access cannot always be restored and the report is then dropped): such findings are
 		// re-executed until the first reproduction, up to 30 times.
-		tries := 5
+		// Likewise a violation of code that has become nondeterministic (e.g. through map iteration order)
+		// need not show on every re-execution: five re-executions are always made, and when none of them
+		// reproduces the violation up to 35 more are made, stopping at the first reproduction.
+		tries := 40
 		raceKey := strings.HasPrefix(v.Key, "data-race")
-		if raceKey {
-			tries = 30
-		}
-		repro := 0
+		repro, ntries := 0, 0
 		for i := 0; i < tries; i++ {
-			if raceKey && repro > 0 {
+			if repro > 0 && (raceKey || i >= 5) {
 				break
 			}
+			ntries++
 			cmd := exec.Command(self, r.ID, "--replay", path)
 			cmd.Env = append(os.Environ(), "VERIF_REPLAY_CHILD=1")
 			var out bytes.Buffer
@@ -308,14 +310,14 @@ func (r *Run) Finish() int {
 				repro++
 			}
 		}
-		rec := vrec{Key: v.Key, Desc: v.Desc, Replay: path, Repro: repro}
+		rec := vrec{Key: v.Key, Desc: v.Desc, Replay: path, Repro: repro, Tries: ntries}
 		switch {
 		case repro == 0:
 			rec.Anomaly = true
 			r.Exhaustive = false
 			lines = append(lines, fmt.Sprintf("ANOMALY property=%s key=%q did not reproduce from %s (harness nondeterminism; not believed)", r.ID, v.Key, path))
 		default:
-			rec.Flaky = repro < 5 && !raceKey
+			rec.Flaky = repro < ntries && !raceKey
 			if kf, ok := matchKnown(known, v.Key); ok {
 				rec.Known = true
 				lines = append(lines, fmt.Sprintf("KNOWN-FINDING: property=%s %s [key=%s]", r.ID, kf.What, v.Key))
